@@ -1,0 +1,32 @@
+//! Verification hooks.  Compiled only with `--cfg pdf_verif`; without the flag nothing here exists.
+use std::sync::atomic::{AtomicU64, AtomicUsize, Ordering};
+
+/// Total number of bytes produced by stream filters (`enc::decode`) since the last reset.
+pub static DECODED_BYTES: AtomicU64 = AtomicU64::new(0);
+
+pub fn add_decoded(n: usize) {
+    DECODED_BYTES.fetch_add(n as u64, Ordering::Relaxed);
+}
+pub fn take_decoded() -> u64 {
+    DECODED_BYTES.swap(0, Ordering::Relaxed)
+}
+
+/// A synchronisation point inside `Resolve::get`, reported to an optional hook so that a test
+/// scheduler can decide which thread runs next.
+pub type YieldFn = fn(site: &'static str, obj_nr: u64);
+
+static YIELD_HOOK: AtomicUsize = AtomicUsize::new(0);
+
+pub fn set_yield_hook(f: Option<YieldFn>) {
+    YIELD_HOOK.store(f.map(|f| f as usize).unwrap_or(0), Ordering::SeqCst);
+}
+
+#[inline]
+pub fn yield_point(site: &'static str, obj_nr: u64) {
+    let p = YIELD_HOOK.load(Ordering::SeqCst);
+    if p != 0 {
+        // safety: only ever stored from a `YieldFn` in `set_yield_hook`
+        let f: YieldFn = unsafe { std::mem::transmute::<usize, YieldFn>(p) };
+        f(site, obj_nr);
+    }
+}
